@@ -272,7 +272,9 @@ func blockSite(c *Ctx, rule string, fn *ssa.Function, ci ssa.CallInstruction, sr
 	} else {
 		checkTerm(c, rule, key+"/source", pos, "input of the AES operation (payload|MIC)", bases[1], srcWant...)
 	}
-	checkTerm(c, rule, key+"/dest", pos, "output buffer", bases[0], &flow.Term{Op: "makeslice", Val: "[]byte", Args: []*flow.Term{flow.Call("len", bases[1])}})
+	// a fresh buffer of the input's length, or the input buffer itself (block-wise in place: Block.Encrypt/Decrypt
+	// permit dst == src; what ends up in the frame is decided byte for byte by the exact rule)
+	checkTerm(c, rule, key+"/dest", pos, "output buffer", bases[0], &flow.Term{Op: "makeslice", Val: "[]byte", Args: []*flow.Term{flow.Call("len", bases[1])}}, bases[1])
 	// length is a multiple of 16 on the path, loop runs to len/16
 	pc := e.PathCond(ci.Block(), nil)
 	mult := flow.Eq(flow.Bin("%", flow.Call("len", bases[1]), flow.ConstInt(16)), flow.ConstInt(0))
